@@ -200,6 +200,10 @@ func (dl *datalog) del(key []byte) error {
 func (dl *datalog) writeRecord(data []byte, rt recordType) (uint16, uint32, error) {
 	if dl.curSeg.meta.Full || dl.curSeg.size+int64(len(data)) > int64(dl.opts.maxSegmentSize) {
 		// Current segment is full, create a new one.
+		// Sync only reaches the current segment - commit the full one before leaving it.
+		if err := dl.sync(); err != nil {
+			return 0, 0, err
+		}
 		dl.curSeg.meta.Full = true
 		if err := dl.swapSegment(); err != nil {
 			return 0, 0, err
